@@ -25,3 +25,6 @@ from contracts import lemmas as _L  # noqa: E402
 register(Unit(P, "MONO/MetadataManager.commit-local", _cp.h_mm_commit("local"), functions=[f"{_cp.MM}:MetadataManager.commit"], replay=_cp._replay_mm_commit))
 register(Unit(P, "LEMMA/MONO", _L.h_mono, functions=[], replay=None,
               uses=["WRITABLE:next-version=resolved-version+1(1-only-if-nothing-is-resolvable)", "LIN:the-replaced-pointer-is-the-validated-one(no-write-in-between)"]))
+
+from contracts import helpers as _HLP  # noqa: E402
+_HLP.register_under("C02", ["HELPER/_get_current_schema"])
